@@ -1,7 +1,10 @@
 //! C04 — real `SyncStateV1::compute_available_needs` vs the Lean model `Corro.Needs`,
-//! plus an independent set-based oracle for the property evaluated on the real output.
+//! plus an independent set-based oracle for the property evaluated on the real output; and the REAL
+//! `parallel_sync` (client side of a sync session: chunking, 10-per-round draining, `req_full` /
+//! `req_partials` de-duplication shared by all servers) run against fake peers vs `syncSession 10 10`.
 //!
-//! One op per case:
+//! One op per case.
+//!
 //! `can <ourActor> <ourHeads> <ourNeed> <ourPartials> <peerActor> <peerHeads> <peerNeed> <peerPartials>`
 //!   heads    `a:h;a:h`              (`-` = empty map)
 //!   need     `a:lo-hi,lo-hi;a:…`    (`a:-` = empty list)
@@ -10,11 +13,64 @@
 //! Output `a:F<lo>-<hi>,P<v>=<lo>-<hi>+…,…;a:…` — actors ascending, needs in the order the function
 //! pushed them, the (HashMap-ordered) partial needs re-ordered by ascending version.
 //! Actor `n` on the op line is `ActorId(Uuid::from_u128(n))`.
+//!
+//! `session <our state: 4 tokens> | <mode> <peer state: 4 tokens> | <mode> <peer state> …`   (1..=4 peers)
+//!   mode `ok`      the fake peer answers the handshake with `State(<peer state>)` + `Clock`
+//!        `close`   it ends the stream right after the client's start payload (client: UnexpectedEndOfStream)
+//!        `reject`  it answers `Rejection(MaxConcurrencyReached)`
+//!        `silent`  it never answers (the client gives up after its 2 s handshake timeout)
+//!   Actor ids of us and all peers pairwise distinct, else `bad-op`.
+//! The client is a REAL `Agent` + REAL `Transport` (`klukai_agent::agent::setup`, plaintext QUIC on
+//! 127.0.0.1); the real `parallel_sync(agent, transport, members, our_sync_state)` is called with the parsed
+//! "our state".  Every peer is a fake server of this harness on a real quinn endpoint made by the real
+//! `gossip_server_endpoint`: it reads `BiPayload::V1{SyncStart}` and the client's `Clock`, answers as its mode
+//! says, RECORDS every `SyncMessageV1::Request` until the client finishes the stream, then finishes its own
+//! side without sending a single change.
+//!
+//! What fixes the order (so that the op line determines the output):
+//!  * `parallel_sync` orders its servers by handshake COMPLETION (`FuturesUnordered`).  The client increments the
+//!    counter `corro.sync.client.member{id}` synchronously in the very poll in which a handshake future
+//!    completes; the harness' `metrics` recorder releases the next fake server (in `members` order) only then,
+//!    so completion order = `members` order by causality, not by timing.  The recorded order is verified.
+//!  * the order of the Partial needs of one actor is the iteration order of OUR inner
+//!    `HashMap<CrsqlDbVersion, _>`: the harness rebuilds that map until it iterates by ascending version (the
+//!    order of the model's association list).
+//!  * the global order of the requests over all servers is read off the client's own counter
+//!    `corro.sync.client.req.sent{actor_id}` (one increment per encoded Request, value = number of needs),
+//!    matched against the per-server arrival order.
+//!  * NOT controllable: the order of the ACTORS in one server's queue (`HashMap<ActorId, _>` built inside
+//!    `compute_available_needs`).  Output forms, chosen by the same rule on both sides from the computed needs:
+//!      `seq <srv>><actor>:<need>,…`       no server has needs for 2+ actors: the whole session in sending order;
+//!      `act <srv>[<a>:<need>,…;<a>:…]|…`  every server with 2+ actors has at most 10 queued items (it is drained
+//!                                         in its first turn, so per actor everything is still determined):
+//!                                         per server (members order), per actor ascending, in arrival order;
+//!      `set <a>:F<lo>-<hi>,…,P<v>=<seqs>,…;…` otherwise: only the order-independent facts — per actor the
+//!                                         union of all Full requests and, per version, of all requested seqs.
+//!    `err handshake` when no peer completed the handshake, `err backward-range` as for `can`.
+//! The order-independent ORACLE (no duplicates / union = computed needs / per server only what was computed for
+//! it / block size) runs on the real messages of every session in all three forms.
 use std::collections::{BTreeMap, BTreeSet, HashMap};
+use std::net::SocketAddr;
+use std::sync::atomic::{AtomicUsize, Ordering};
+use std::sync::{Arc, Mutex, OnceLock};
+use std::time::Duration;
 
+use bytes::{Bytes, BytesMut};
+use futures::StreamExt;
+use klukai_agent::agent::{AgentOptions, setup};
+use klukai_agent::api::peer::verif_hooks::chunk_range_versions;
+use klukai_agent::api::peer::{gossip_server_endpoint, parallel_sync};
+use klukai_agent::transport::Transport;
 use klukai_types::actor::ActorId;
+use klukai_types::agent::Agent;
 use klukai_types::base::{CrsqlDbVersion, CrsqlSeq};
-use klukai_types::sync::{SyncNeedV1, SyncStateV1};
+use klukai_types::broadcast::{BiPayload, BiPayloadV1, Timestamp};
+use klukai_types::config::{Config, DEFAULT_GOSSIP_CLIENT_ADDR, GossipConfig};
+use klukai_types::sync::{SyncMessage, SyncMessageV1, SyncNeedV1, SyncRejectionV1, SyncStateV1};
+use klukai_types::tripwire::Tripwire;
+use speedy::{Readable, Writable};
+use tokio::io::AsyncWriteExt;
+use tokio_util::codec::{Encoder, FramedRead, LengthDelimitedCodec};
 
 use crate::rng::Rng;
 use crate::runner::{CaseResult, Prop, Tier};
@@ -159,19 +215,26 @@ enum N {
     Other,
 }
 
+fn to_n(n: SyncNeedV1) -> N {
+    match n {
+        SyncNeedV1::Full { versions } => N::Full(versions.start().0, versions.end().0),
+        SyncNeedV1::Partial { version, seqs } => N::Part(version.0, seqs.iter().map(|r| (r.start().0, r.end().0)).collect()),
+        _ => N::Other,
+    }
+}
+
+fn show_n(n: &N) -> String {
+    match n {
+        N::Full(lo, hi) => format!("F{lo}-{hi}"),
+        N::Part(v, rs) => format!("P{v}={}", rs.iter().map(|r| show_range(*r)).collect::<Vec<_>>().join("+")),
+        N::Other => "E".to_string(),
+    }
+}
+
 fn canon(out: HashMap<ActorId, Vec<SyncNeedV1>>) -> BTreeMap<u64, Vec<N>> {
     let mut m = BTreeMap::new();
     for (a, ns) in out {
-        let mut v: Vec<N> = ns
-            .into_iter()
-            .map(|n| match n {
-                SyncNeedV1::Full { versions } => N::Full(versions.start().0, versions.end().0),
-                SyncNeedV1::Partial { version, seqs } => {
-                    N::Part(version.0, seqs.iter().map(|r| (r.start().0, r.end().0)).collect())
-                }
-                _ => N::Other,
-            })
-            .collect();
+        let mut v: Vec<N> = ns.into_iter().map(to_n).collect();
         // the partial needs come out in HashMap order: sort them among themselves, in place
         let idx: Vec<usize> = v.iter().enumerate().filter(|(_, n)| matches!(n, N::Part(..))).map(|(i, _)| i).collect();
         let mut parts: Vec<N> = idx.iter().map(|i| v[*i].clone()).collect();
@@ -191,16 +254,7 @@ fn show_out(m: &BTreeMap<u64, Vec<N>>) -> String {
     let es: Vec<String> = m
         .iter()
         .map(|(a, ns)| {
-            let ns: Vec<String> = ns
-                .iter()
-                .map(|n| match n {
-                    N::Full(lo, hi) => format!("F{lo}-{hi}"),
-                    N::Part(v, rs) => {
-                        format!("P{v}={}", rs.iter().map(|r| show_range(*r)).collect::<Vec<_>>().join("+"))
-                    }
-                    N::Other => "E".to_string(),
-                })
-                .collect();
+            let ns: Vec<String> = ns.iter().map(show_n).collect();
             format!("{a}:{}", ns.join(","))
         })
         .collect();
@@ -533,13 +587,1051 @@ fn gen_side(rng: &mut Rng, st: &mut St, a: u64, head: u64, pool: &[u64], sloppy:
     }
 }
 
+// ================================================================ sessions: the real `parallel_sync`
+
+/// `chunk_range(versions, 10)` in `parallel_sync`
+const CHUNK: usize = 10;
+/// `while drained < 10`
+const DRAIN: usize = 10;
+const MAX_PEERS: usize = 4;
+
+#[derive(Clone, Copy, PartialEq, Eq, Debug)]
+enum Mode {
+    Ok,
+    Close,
+    Reject,
+    Silent,
+}
+
+fn mode_name(m: Mode) -> &'static str {
+    match m {
+        Mode::Ok => "ok",
+        Mode::Close => "close",
+        Mode::Reject => "reject",
+        Mode::Silent => "silent",
+    }
+}
+
+fn enc_session(us: &St, peers: &[(Mode, St)]) -> String {
+    let mut s = format!("session {}", enc_state(us));
+    for (m, p) in peers {
+        s.push_str(&format!(" | {} {}", mode_name(*m), enc_state(p)));
+    }
+    s
+}
+
+fn parse_session(toks: &[&str]) -> Option<(St, Vec<(Mode, St)>)> {
+    if toks.len() < 11 || (toks.len() - 5) % 6 != 0 {
+        return None;
+    }
+    let n = (toks.len() - 5) / 6;
+    if n > MAX_PEERS {
+        return None;
+    }
+    let us = parse_state(toks[1], toks[2], toks[3], toks[4])?;
+    let mut peers = vec![];
+    for i in 0..n {
+        let b = 5 + 6 * i;
+        if toks[b] != "|" {
+            return None;
+        }
+        let mode = match toks[b + 1] {
+            "ok" => Mode::Ok,
+            "close" => Mode::Close,
+            "reject" => Mode::Reject,
+            "silent" => Mode::Silent,
+            _ => return None,
+        };
+        peers.push((mode, parse_state(toks[b + 2], toks[b + 3], toks[b + 4], toks[b + 5])?));
+    }
+    let mut ids: Vec<u64> = peers.iter().map(|p| p.1.actor).collect();
+    ids.push(us.actor);
+    ids.sort();
+    if ids.windows(2).any(|w| w[0] == w[1]) {
+        return None;
+    }
+    Some((us, peers))
+}
+
+/// our real state, with every inner partial map rebuilt until it ITERATES by ascending version (each rebuild
+/// gets a fresh `RandomState`); `None` if that did not happen within the budget
+fn build_ordered(s: &St) -> Option<SyncStateV1> {
+    let mut st = build(s);
+    for (a, pm) in &s.partial {
+        if pm.len() < 2 {
+            continue;
+        }
+        let mut found = false;
+        for _ in 0..3_000_000u32 {
+            let m: HashMap<CrsqlDbVersion, Vec<std::ops::RangeInclusive<CrsqlSeq>>> =
+                pm.iter().map(|(v, rs)| (CrsqlDbVersion(*v), rs.iter().map(|r| CrsqlSeq(r.0)..=CrsqlSeq(r.1)).collect())).collect();
+            let ks: Vec<u64> = m.keys().map(|k| k.0).collect();
+            if ks.windows(2).all(|w| w[0] < w[1]) {
+                st.partial_need.insert(aid(*a), m);
+                found = true;
+                break;
+            }
+        }
+        if !found {
+            return None;
+        }
+    }
+    // the insertions above do not touch the inner tables, but be sure
+    for (a, pm) in &st.partial_need {
+        let ks: Vec<u64> = pm.keys().map(|k| k.0).collect();
+        if !ks.windows(2).all(|w| w[0] < w[1]) {
+            let _ = a;
+            return None;
+        }
+    }
+    Some(st)
+}
+
+// ---------------------------------------------------------------- what the client's own counters tell
+
+#[derive(Clone, Debug, PartialEq)]
+enum Ev {
+    /// `corro.sync.client.member{id}`: this server's handshake future is completing right now
+    Member(String),
+    /// `corro.sync.client.handshake.errors{actor_id}`
+    HsErr(String),
+    /// `corro.sync.client.req.sent{actor_id}` += n: one Request with n needs was encoded for this server
+    Sent(String, u64),
+}
+
+type Msg = Vec<(u64, Vec<N>)>;
+
+struct Sess {
+    /// number of live servers (in members order) whose handshake the client has completed
+    gate: tokio::sync::watch::Sender<usize>,
+    /// `ActorId` strings of the `ok` peers, members order
+    live_ids: Vec<String>,
+    events: Mutex<Vec<Ev>>,
+    /// per peer: the Request messages in arrival order
+    recv: Vec<Mutex<Vec<Msg>>>,
+    /// per peer: bi streams opened by the client
+    streams: Vec<AtomicUsize>,
+    /// things a fake server saw that the real client should never do (→ oracle failures)
+    anomalies: Mutex<Vec<String>>,
+    /// things that make the run undecidable (→ retry / inconclusive)
+    hiccups: Mutex<Vec<String>>,
+    done: tokio::sync::Semaphore,
+}
+
+fn cur() -> &'static Mutex<Option<Arc<Sess>>> {
+    static CUR: OnceLock<Mutex<Option<Arc<Sess>>>> = OnceLock::new();
+    CUR.get_or_init(|| Mutex::new(None))
+}
+
+fn cur_sess() -> Option<Arc<Sess>> {
+    cur().lock().unwrap().clone()
+}
+
+struct SentCounter(String);
+impl metrics::CounterFn for SentCounter {
+    fn increment(&self, v: u64) {
+        if let Some(s) = cur_sess() {
+            s.events.lock().unwrap().push(Ev::Sent(self.0.clone(), v));
+        }
+    }
+    fn absolute(&self, _v: u64) {}
+}
+
+struct Rec;
+fn label<'a>(key: &'a metrics::Key, name: &str) -> Option<&'a str> {
+    key.labels().find(|l| l.key() == name).map(|l| l.value())
+}
+impl metrics::Recorder for Rec {
+    fn describe_counter(&self, _: metrics::KeyName, _: Option<metrics::Unit>, _: metrics::SharedString) {}
+    fn describe_gauge(&self, _: metrics::KeyName, _: Option<metrics::Unit>, _: metrics::SharedString) {}
+    fn describe_histogram(&self, _: metrics::KeyName, _: Option<metrics::Unit>, _: metrics::SharedString) {}
+    fn register_counter(&self, key: &metrics::Key, _: &metrics::Metadata<'_>) -> metrics::Counter {
+        match key.name() {
+            "corro.sync.client.member" => {
+                if let (Some(id), Some(s)) = (label(key, "id"), cur_sess()) {
+                    s.events.lock().unwrap().push(Ev::Member(id.to_string()));
+                    if let Some(p) = s.live_ids.iter().position(|x| x == id) {
+                        // the future of live server p is in its last poll: let server p + 1 answer
+                        s.gate.send_modify(|g| {
+                            if *g < p + 1 {
+                                *g = p + 1
+                            }
+                        });
+                    }
+                }
+                metrics::Counter::noop()
+            }
+            "corro.sync.client.handshake.errors" => {
+                if let (Some(id), Some(s)) = (label(key, "actor_id"), cur_sess()) {
+                    s.events.lock().unwrap().push(Ev::HsErr(id.to_string()));
+                }
+                metrics::Counter::noop()
+            }
+            "corro.sync.client.req.sent" => match label(key, "actor_id") {
+                Some(id) => metrics::Counter::from_arc(Arc::new(SentCounter(id.to_string()))),
+                None => metrics::Counter::noop(),
+            },
+            _ => metrics::Counter::noop(),
+        }
+    }
+    fn register_gauge(&self, _: &metrics::Key, _: &metrics::Metadata<'_>) -> metrics::Gauge {
+        metrics::Gauge::noop()
+    }
+    fn register_histogram(&self, _: &metrics::Key, _: &metrics::Metadata<'_>) -> metrics::Histogram {
+        metrics::Histogram::noop()
+    }
+}
+
+// ---------------------------------------------------------------- the fake peers
+
+#[derive(Clone)]
+struct SlotCfg {
+    idx: usize,
+    mode: Mode,
+    state: SyncStateV1,
+    /// position among the `ok` peers
+    live_pos: usize,
+    sess: Arc<Sess>,
+}
+
+type Slot = Arc<Mutex<Option<SlotCfg>>>;
+
+fn codec() -> LengthDelimitedCodec {
+    LengthDelimitedCodec::builder().max_frame_length(100 * 1_024 * 1_024).new_codec()
+}
+
+fn frame(msg: &SyncMessage, out: &mut BytesMut) -> Result<(), String> {
+    let v = msg.write_to_vec().map_err(|e| format!("encode: {e}"))?;
+    codec().encode(Bytes::from(v), out).map_err(|e| format!("frame: {e}"))
+}
+
+async fn drain(framed: &mut FramedRead<quinn::RecvStream, LengthDelimitedCodec>) {
+    // until the client finishes / drops its side; bounded so that a stuck stream cannot hold the run
+    let _ = tokio::time::timeout(Duration::from_secs(20), async {
+        while let Some(r) = framed.next().await {
+            if r.is_err() {
+                break;
+            }
+        }
+    })
+    .await;
+}
+
+async fn serve(cfg: &SlotCfg, clock: Timestamp, tx: &mut quinn::SendStream, rx: quinn::RecvStream) -> Result<(), String> {
+    let sess = &cfg.sess;
+    let mut framed = FramedRead::new(rx, codec());
+    // the start payload
+    match tokio::time::timeout(Duration::from_secs(10), framed.next()).await {
+        Ok(Some(Ok(b))) => match BiPayload::read_from_buffer(&b) {
+            Ok(BiPayload::V1 { data: BiPayloadV1::SyncStart { .. }, .. }) => {}
+            Err(e) => return Err(format!("first frame is not a BiPayload: {e}")),
+        },
+        Ok(Some(Err(e))) => return Err(format!("reading the start payload: {e}")),
+        Ok(None) => return Err("stream ended before the start payload".into()),
+        Err(_) => {
+            sess.hiccups.lock().unwrap().push(format!("server {}: no start payload within 10 s", cfg.idx));
+            return Ok(());
+        }
+    }
+    // the client's clock
+    match tokio::time::timeout(Duration::from_secs(10), framed.next()).await {
+        Ok(Some(Ok(mut b))) => match SyncMessage::from_buf(&mut b) {
+            Ok(SyncMessage::V1(SyncMessageV1::Clock(_))) => {}
+            Ok(_) => return Err("second frame is not a Clock".into()),
+            Err(e) => return Err(format!("second frame does not decode: {e}")),
+        },
+        Ok(Some(Err(e))) => return Err(format!("reading the client's clock: {e}")),
+        Ok(None) => return Err("stream ended before the client's clock".into()),
+        Err(_) => {
+            sess.hiccups.lock().unwrap().push(format!("server {}: no clock within 10 s", cfg.idx));
+            return Ok(());
+        }
+    }
+    match cfg.mode {
+        Mode::Silent => {
+            drain(&mut framed).await;
+            Ok(())
+        }
+        Mode::Close => {
+            let _ = tx.finish();
+            drain(&mut framed).await;
+            Ok(())
+        }
+        Mode::Reject => {
+            let mut out = BytesMut::new();
+            frame(&SyncMessage::V1(SyncMessageV1::Rejection(SyncRejectionV1::MaxConcurrencyReached)), &mut out)?;
+            let _ = tx.write_all(&out).await;
+            let _ = tx.finish();
+            drain(&mut framed).await;
+            Ok(())
+        }
+        Mode::Ok => {
+            // answer only when the client has completed the handshakes of all live servers before this one
+            let mut gate = sess.gate.subscribe();
+            let pos = cfg.live_pos;
+            match tokio::time::timeout(Duration::from_secs(10), gate.wait_for(|g| *g >= pos)).await {
+                Ok(Ok(_)) => {}
+                _ => {
+                    sess.hiccups.lock().unwrap().push(format!("server {}: not released within 10 s", cfg.idx));
+                    return Ok(());
+                }
+            }
+            let mut out = BytesMut::new();
+            frame(&SyncMessage::V1(SyncMessageV1::State(cfg.state.clone())), &mut out)?;
+            frame(&SyncMessage::V1(SyncMessageV1::Clock(clock)), &mut out)?;
+            if let Err(e) = tx.write_all(&out).await {
+                sess.hiccups.lock().unwrap().push(format!("server {}: could not write state: {e}", cfg.idx));
+                return Ok(());
+            }
+            let _ = tx.flush().await;
+            // record every request until the client finishes its side
+            loop {
+                match tokio::time::timeout(Duration::from_secs(20), framed.next()).await {
+                    Err(_) => {
+                        sess.hiccups.lock().unwrap().push(format!("server {}: client did not finish the stream within 20 s", cfg.idx));
+                        return Ok(());
+                    }
+                    Ok(None) => return Ok(()),
+                    Ok(Some(Err(e))) => {
+                        // also what a client that drops the stream without finishing looks like
+                        sess.hiccups.lock().unwrap().push(format!("server {}: read error {e}", cfg.idx));
+                        return Ok(());
+                    }
+                    Ok(Some(Ok(mut b))) => match SyncMessage::from_buf(&mut b) {
+                        Ok(SyncMessage::V1(SyncMessageV1::Request(req))) => {
+                            let m: Msg = req.into_iter().map(|(a, ns)| (unaid(&a), ns.into_iter().map(to_n).collect())).collect();
+                            sess.recv[cfg.idx].lock().unwrap().push(m);
+                        }
+                        Ok(_) => return Err("a frame after the handshake is not a Request".into()),
+                        Err(e) => return Err(format!("a frame after the handshake does not decode: {e}")),
+                    },
+                }
+            }
+        }
+    }
+}
+
+async fn handle_stream(slot: Slot, clock: Arc<uhlc::HLC>, mut tx: quinn::SendStream, rx: quinn::RecvStream) {
+    let cfg = slot.lock().unwrap().clone();
+    let Some(cfg) = cfg else {
+        let _ = tx.finish();
+        return;
+    };
+    cfg.sess.streams[cfg.idx].fetch_add(1, Ordering::SeqCst);
+    let ts = Timestamp::from(clock.new_timestamp());
+    if let Err(e) = serve(&cfg, ts, &mut tx, rx).await {
+        cfg.sess.anomalies.lock().unwrap().push(format!("server {}: {e}", cfg.idx));
+    }
+    let _ = tx.finish();
+    cfg.sess.done.add_permits(1);
+}
+
+async fn accept_loop(ep: quinn::Endpoint, slot: Slot, clock: Arc<uhlc::HLC>) {
+    while let Some(incoming) = ep.accept().await {
+        let (slot, clock) = (slot.clone(), clock.clone());
+        tokio::spawn(async move {
+            let Ok(conn) = incoming.await else { return };
+            while let Ok((tx, rx)) = conn.accept_bi().await {
+                tokio::spawn(handle_stream(slot.clone(), clock.clone(), tx, rx));
+            }
+        });
+    }
+}
+
+struct Ctx {
+    rt: tokio::runtime::Runtime,
+    agent: Agent,
+    transport: Transport,
+    _opts: AgentOptions,
+    _trip_tx: tokio::sync::mpsc::Sender<()>,
+    servers: Vec<(SocketAddr, Slot, quinn::Endpoint)>,
+    _tmp: tempfile::TempDir,
+}
+
+fn ctx_cell() -> &'static Mutex<Option<Ctx>> {
+    static CTX: OnceLock<Mutex<Option<Ctx>>> = OnceLock::new();
+    CTX.get_or_init(|| Mutex::new(None))
+}
+
+fn init_ctx() -> Result<Ctx, String> {
+    static ONCE: OnceLock<()> = OnceLock::new();
+    ONCE.get_or_init(|| {
+        let _ = metrics::set_global_recorder(Rec);
+    });
+    let rt = tokio::runtime::Builder::new_multi_thread().worker_threads(3).enable_all().build().map_err(|e| e.to_string())?;
+    let tmp = tempfile::Builder::new().prefix("hx-c04-").tempdir().map_err(|e| e.to_string())?;
+    let conf: Config = Config::builder()
+        .api_addr("127.0.0.1:0".parse().unwrap())
+        .gossip_addr("127.0.0.1:0".parse().unwrap())
+        .admin_path(tmp.path().join("admin.sock").display().to_string())
+        .db_path(tmp.path().join("corrosion.db").display().to_string())
+        .build()
+        .map_err(|e| e.to_string())?;
+    let (tripwire, worker, trip_tx) = Tripwire::new_simple();
+    let (agent, opts, servers) = rt.block_on(async move {
+        tokio::spawn(worker);
+        let (agent, opts) = setup(conf, tripwire).await.map_err(|e| format!("setup: {e:#}"))?;
+        let g = GossipConfig {
+            bind_addr: "127.0.0.1:0".parse().unwrap(),
+            external_addr: None,
+            client_addr: DEFAULT_GOSSIP_CLIENT_ADDR,
+            bootstrap: vec![],
+            tls: None,
+            plaintext: true,
+            max_mtu: None,
+            idle_timeout_secs: 30,
+            disable_gso: false,
+        };
+        let mut servers = vec![];
+        for _ in 0..MAX_PEERS {
+            let ep = gossip_server_endpoint(&g).await.map_err(|e| format!("fake server endpoint: {e:#}"))?;
+            let addr = ep.local_addr().map_err(|e| e.to_string())?;
+            let slot: Slot = Arc::new(Mutex::new(None));
+            tokio::spawn(accept_loop(ep.clone(), slot.clone(), agent.clock().clone()));
+            servers.push((addr, slot, ep));
+        }
+        Ok::<_, String>((agent, opts, servers))
+    })?;
+    let transport = opts.transport.clone();
+    Ok(Ctx { rt, agent, transport, _opts: opts, _trip_tx: trip_tx, servers, _tmp: tmp })
+}
+
+fn drop_ctx() {
+    if let Some(ctx) = ctx_cell().lock().unwrap().take() {
+        let Ctx { rt, agent, transport, _opts, _trip_tx, servers, _tmp } = ctx;
+        {
+            let _g = rt.enter();
+            for (_, _, ep) in &servers {
+                ep.close(0u32.into(), b"");
+            }
+            drop(servers);
+            drop(transport);
+            drop(_opts);
+            drop(agent);
+        }
+        rt.shutdown_timeout(Duration::from_secs(2));
+        drop(_tmp);
+    }
+}
+
+struct Raw {
+    result_ok: bool,
+    timed_out: bool,
+    events: Vec<Ev>,
+    recv: Vec<Vec<Msg>>,
+    streams: Vec<usize>,
+    anomalies: Vec<String>,
+    hiccups: Vec<String>,
+    all_done: bool,
+}
+
+fn run_once(ctx: &Ctx, our: SyncStateV1, peers: &[(Mode, St)]) -> Raw {
+    let n = peers.len();
+    let live_ids: Vec<String> = peers.iter().filter(|p| p.0 == Mode::Ok).map(|p| aid(p.1.actor).to_string()).collect();
+    let (gate, _keep) = tokio::sync::watch::channel(0usize);
+    let sess = Arc::new(Sess {
+        gate,
+        live_ids,
+        events: Mutex::new(vec![]),
+        recv: (0..n).map(|_| Mutex::new(vec![])).collect(),
+        streams: (0..n).map(|_| AtomicUsize::new(0)).collect(),
+        anomalies: Mutex::new(vec![]),
+        hiccups: Mutex::new(vec![]),
+        done: tokio::sync::Semaphore::new(0),
+    });
+    let mut live_pos = 0;
+    for (i, (mode, st)) in peers.iter().enumerate() {
+        *ctx.servers[i].1.lock().unwrap() = Some(SlotCfg { idx: i, mode: *mode, state: build(st), live_pos, sess: sess.clone() });
+        if *mode == Mode::Ok {
+            live_pos += 1;
+        }
+    }
+    *cur().lock().unwrap() = Some(sess.clone());
+    let members: Vec<(ActorId, SocketAddr)> = peers.iter().enumerate().map(|(i, p)| (aid(p.1.actor), ctx.servers[i].0)).collect();
+    let (agent, transport) = (&ctx.agent, &ctx.transport);
+    let s2 = sess.clone();
+    let (res, all_done) = ctx.rt.block_on(async move {
+        let res = tokio::time::timeout(Duration::from_secs(40), parallel_sync(agent, transport, members, our)).await;
+        // every member got exactly one bi stream; its handler ends when the client has finished / dropped it
+        let all_done = tokio::time::timeout(Duration::from_secs(25), s2.done.acquire_many(n as u32)).await.map(|r| r.is_ok()).unwrap_or(false);
+        (res, all_done)
+    });
+    *cur().lock().unwrap() = None;
+    for i in 0..n {
+        *ctx.servers[i].1.lock().unwrap() = None;
+    }
+    Raw {
+        result_ok: matches!(res, Ok(Ok(_))),
+        timed_out: res.is_err(),
+        events: sess.events.lock().unwrap().clone(),
+        recv: sess.recv.iter().map(|m| m.lock().unwrap().clone()).collect(),
+        streams: sess.streams.iter().map(|a| a.load(Ordering::SeqCst)).collect(),
+        anomalies: sess.anomalies.lock().unwrap().clone(),
+        hiccups: sess.hiccups.lock().unwrap().clone(),
+        all_done,
+    }
+}
+
+/// why this run cannot be used (the fake world did not behave as the op line says), if so
+fn undecidable(raw: &Raw, peers: &[(Mode, St)]) -> Option<String> {
+    if raw.timed_out {
+        return Some("parallel_sync did not return within 40 s".into());
+    }
+    if !raw.all_done {
+        return Some("a fake server's stream was still open 25 s after parallel_sync returned".into());
+    }
+    if let Some(h) = raw.hiccups.first() {
+        return Some(h.clone());
+    }
+    let live: Vec<String> = peers.iter().filter(|p| p.0 == Mode::Ok).map(|p| aid(p.1.actor).to_string()).collect();
+    let members: Vec<String> = raw.events.iter().filter_map(|e| if let Ev::Member(id) = e { Some(id.clone()) } else { None }).collect();
+    if members != live {
+        return Some("the handshakes did not complete for exactly the `ok` peers in members order".into());
+    }
+    None
+}
+
+type Sent = Vec<(u64, u64, N)>;
+
+/// global sending order from the client's `req.sent` increments, matched against what each server received
+fn global_order(raw: &Raw, peers: &[(Mode, St)], fails: &mut Vec<String>) -> Sent {
+    let mut sent: Sent = vec![];
+    let mut ptr = vec![0usize; peers.len()];
+    let mut ok = true;
+    for e in &raw.events {
+        let Ev::Sent(id, len) = e else { continue };
+        let Some(i) = peers.iter().position(|p| aid(p.1.actor).to_string() == *id) else {
+            fails.push(format!("the client counted a request for {id}, which is not a member of the session"));
+            ok = false;
+            continue;
+        };
+        match raw.recv[i].get(ptr[i]) {
+            Some(m) if m.len() == 1 && m[0].1.len() as u64 == *len => {
+                for n in &m[0].1 {
+                    sent.push((peers[i].1.actor, m[0].0, n.clone()));
+                }
+            }
+            Some(m) => {
+                fails.push(format!(
+                    "server {}: message #{} has {} actor entries / {} needs, the client counted one entry with {len} needs",
+                    peers[i].1.actor,
+                    ptr[i],
+                    m.len(),
+                    m.iter().map(|x| x.1.len()).sum::<usize>()
+                ));
+                ok = false;
+            }
+            None => {
+                fails.push(format!("server {}: the client counted more requests than arrived ({} arrived)", peers[i].1.actor, raw.recv[i].len()));
+                ok = false;
+            }
+        }
+        ptr[i] += 1;
+    }
+    for (i, p) in peers.iter().enumerate() {
+        if ptr[i] < raw.recv[i].len() {
+            fails.push(format!("server {}: {} request messages arrived, the client counted {}", p.1.actor, raw.recv[i].len(), ptr[i]));
+            ok = false;
+        }
+    }
+    if !ok {
+        // fall back to server-by-server arrival order so that a line can still be printed
+        sent.clear();
+        for (i, p) in peers.iter().enumerate() {
+            for m in &raw.recv[i] {
+                for (a, ns) in m {
+                    for n in ns {
+                        sent.push((p.1.actor, *a, n.clone()));
+                    }
+                }
+            }
+        }
+    }
+    sent
+}
+
+fn to_ranges(ps: &BTreeSet<u64>) -> Ranges {
+    let mut out: Ranges = vec![];
+    for x in ps {
+        match out.last_mut() {
+            Some(r) if r.1 + 1 == *x => r.1 = *x,
+            _ => out.push((*x, *x)),
+        }
+    }
+    out
+}
+
+#[derive(Clone, Copy, PartialEq, Eq, Debug)]
+enum Form {
+    Seq,
+    Act,
+    Set,
+}
+
+/// (number of actors, queue length) of one server, from the real computed needs and the real `chunk_range`
+fn queue_shape(avail: &BTreeMap<u64, Vec<N>>) -> (usize, usize) {
+    let mut len = 0;
+    for ns in avail.values() {
+        for n in ns {
+            len += match n {
+                N::Full(lo, hi) => chunk_range_versions(CrsqlDbVersion(*lo)..=CrsqlDbVersion(*hi), CHUNK).len(),
+                _ => 1,
+            };
+        }
+    }
+    (avail.len(), len)
+}
+
+fn form_of(shapes: &[(usize, usize)]) -> Form {
+    if shapes.iter().all(|s| s.0 <= 1) {
+        Form::Seq
+    } else if shapes.iter().all(|s| s.0 <= 1 || s.1 <= DRAIN) {
+        Form::Act
+    } else {
+        Form::Set
+    }
+}
+
+fn show_session(form: Form, peers: &[(Mode, St)], sent: &Sent) -> String {
+    match form {
+        Form::Seq => {
+            let items: Vec<String> = sent.iter().map(|(s, a, n)| format!("{s}>{a}:{}", show_n(n))).collect();
+            format!("seq {}", show_list(&items, ","))
+        }
+        Form::Act => {
+            let mut srvs = vec![];
+            for (_, p) in peers {
+                let mut per: BTreeMap<u64, Vec<String>> = BTreeMap::new();
+                for (s, a, n) in sent {
+                    if *s == p.actor {
+                        per.entry(*a).or_default().push(show_n(n));
+                    }
+                }
+                if !per.is_empty() {
+                    let es: Vec<String> = per.iter().map(|(a, ns)| format!("{a}:{}", ns.join(","))).collect();
+                    srvs.push(format!("{}[{}]", p.actor, es.join(";")));
+                }
+            }
+            format!("act {}", show_list(&srvs, "|"))
+        }
+        Form::Set => {
+            let mut full: BTreeMap<u64, BTreeSet<u64>> = BTreeMap::new();
+            let mut part: BTreeMap<u64, BTreeMap<u64, BTreeSet<u64>>> = BTreeMap::new();
+            let mut actors: BTreeSet<u64> = BTreeSet::new();
+            for (_, a, n) in sent {
+                actors.insert(*a);
+                match n {
+                    N::Full(lo, hi) => full.entry(*a).or_default().extend(points(&[(*lo, *hi)])),
+                    N::Part(v, rs) => part.entry(*a).or_default().entry(*v).or_default().extend(points(rs)),
+                    N::Other => {}
+                }
+            }
+            let es: Vec<String> = actors
+                .iter()
+                .map(|a| {
+                    let mut items: Vec<String> = vec![];
+                    if let Some(f) = full.get(a) {
+                        items.extend(to_ranges(f).iter().map(|r| format!("F{}", show_range(*r))));
+                    }
+                    if let Some(pm) = part.get(a) {
+                        for (v, ps) in pm {
+                            items.push(format!("P{v}={}", to_ranges(ps).iter().map(|r| show_range(*r)).collect::<Vec<_>>().join("+")));
+                        }
+                    }
+                    format!("{a}:{}", items.join(","))
+                })
+                .collect();
+            format!("set {}", show_list(&es, ";"))
+        }
+    }
+}
+
+/// Order-independent property oracle on the real messages of one session.  `avail[i]` = what the real
+/// `compute_available_needs(us, peer i)` returned (empty for a peer whose handshake failed).
+fn session_oracle(peers: &[(Mode, St)], avail: &[BTreeMap<u64, Vec<N>>], raw: &Raw, sent: &Sent, tags: &mut Vec<String>) -> Vec<String> {
+    let mut fails = vec![];
+    // (o) shape of the messages as `parallel_sync` builds them
+    for (i, p) in peers.iter().enumerate() {
+        if raw.streams[i] != 1 {
+            fails.push(format!("server {}: the client opened {} bi streams instead of one", p.1.actor, raw.streams[i]));
+        }
+        for m in &raw.recv[i] {
+            if m.len() != 1 || m[0].1.is_empty() {
+                fails.push(format!("server {}: a Request with {} actor entries / an empty need list", p.1.actor, m.len()));
+            }
+            if p.0 != Mode::Ok {
+                fails.push(format!("server {}: got a Request although its handshake failed", p.1.actor));
+            }
+        }
+    }
+    // (i) nothing twice in a session, (iv) block size, well-formedness of each need
+    let mut full_seen: BTreeMap<u64, BTreeSet<u64>> = BTreeMap::new();
+    let mut part_seen: BTreeMap<(u64, u64), BTreeSet<u64>> = BTreeMap::new();
+    for (s, a, n) in sent {
+        match n {
+            N::Full(lo, hi) => {
+                if lo > hi {
+                    fails.push(format!("server {s} actor {a}: backward Full {lo}-{hi}"));
+                    continue;
+                }
+                if hi - lo > CHUNK as u64 {
+                    fails.push(format!("server {s} actor {a}: Full {lo}-{hi} is larger than one chunk_range(_, {CHUNK}) block"));
+                }
+                let seen = full_seen.entry(*a).or_default();
+                for x in *lo..=(*hi).min(ORACLE_MAX) {
+                    if !seen.insert(x) {
+                        fails.push(format!("actor {a}: version {x} requested twice in one session (second time from server {s}, Full {lo}-{hi})"));
+                        break;
+                    }
+                }
+            }
+            N::Part(v, rs) => {
+                if rs.is_empty() || rs.iter().any(|r| r.0 > r.1) {
+                    fails.push(format!("server {s} actor {a}: Partial {v} with an empty or backward seq list"));
+                }
+                let seen = part_seen.entry((*a, *v)).or_default();
+                let mut dup = None;
+                for x in points(rs) {
+                    if !seen.insert(x) && dup.is_none() {
+                        dup = Some(x);
+                    }
+                }
+                if let Some(x) = dup {
+                    fails.push(format!("actor {a} version {v}: seq {x} requested twice in one session (second time from server {s})"));
+                }
+            }
+            N::Other => fails.push(format!("server {s} actor {a}: unexpected need kind")),
+        }
+    }
+    // (ii) union of the requests = union of the computed needs
+    let mut full_want: BTreeMap<u64, BTreeSet<u64>> = BTreeMap::new();
+    let mut part_want: BTreeMap<(u64, u64), BTreeSet<u64>> = BTreeMap::new();
+    for av in avail {
+        for (a, ns) in av {
+            for n in ns {
+                match n {
+                    N::Full(lo, hi) => full_want.entry(*a).or_default().extend(points(&[(*lo, *hi)])),
+                    N::Part(v, rs) => part_want.entry((*a, *v)).or_default().extend(points(rs)),
+                    N::Other => {}
+                }
+            }
+        }
+    }
+    part_want.retain(|_, s| !s.is_empty());
+    part_seen.retain(|_, s| !s.is_empty());
+    let actors: BTreeSet<u64> = full_want.keys().chain(full_seen.keys()).copied().collect();
+    for a in actors {
+        let e = BTreeSet::new();
+        let (w, g) = (full_want.get(&a).unwrap_or(&e), full_seen.get(&a).unwrap_or(&e));
+        if let Some(x) = w.difference(g).next() {
+            fails.push(format!("actor {a}: version {x} is in the needs computed for some peer of the session but was requested from nobody"));
+        }
+        if let Some(x) = g.difference(w).next() {
+            fails.push(format!("actor {a}: version {x} was requested but is in nobody's computed needs"));
+        }
+    }
+    let keys: BTreeSet<(u64, u64)> = part_want.keys().chain(part_seen.keys()).copied().collect();
+    for k in keys {
+        let e = BTreeSet::new();
+        let (w, g) = (part_want.get(&k).unwrap_or(&e), part_seen.get(&k).unwrap_or(&e));
+        if let Some(x) = w.difference(g).next() {
+            fails.push(format!("actor {} version {}: seq {x} is in the needs computed for some peer of the session but was requested from nobody", k.0, k.1));
+        }
+        if let Some(x) = g.difference(w).next() {
+            fails.push(format!("actor {} version {}: seq {x} was requested but is in nobody's computed needs", k.0, k.1));
+        }
+    }
+    // (iii) each server is only asked for (a part of) ONE need computed for that very server
+    for (s, a, n) in sent {
+        let Some(i) = peers.iter().position(|p| p.1.actor == *s) else { continue };
+        let own: &[N] = avail[i].get(a).map(|v| v.as_slice()).unwrap_or(&[]);
+        let within = match n {
+            N::Full(lo, hi) => own.iter().any(|m| matches!(m, N::Full(l, h) if l <= lo && hi <= h)),
+            N::Part(v, rs) => {
+                let ps = points(rs);
+                own.iter().any(|m| matches!(m, N::Part(w, ws) if w == v && ps.is_subset(&points(ws))))
+            }
+            N::Other => false,
+        };
+        if !within {
+            fails.push(format!("server {s} was asked for actor {a} {} which is not within any need computed for that server", show_n(n)));
+        }
+    }
+    // distribution
+    let total_items: usize = avail.iter().map(|av| queue_shape(av).1).sum();
+    let n_sent_items = raw.recv.iter().map(|r| r.len()).sum::<usize>();
+    if n_sent_items < total_items {
+        tags.push("session:some-item-fully-deduplicated".into());
+    }
+    if avail.iter().filter(|av| !av.is_empty()).count() >= 2 {
+        tags.push("session:2+servers-with-needs".into());
+    }
+    if avail.iter().any(|av| queue_shape(av).1 > DRAIN) {
+        tags.push("session:some-queue>10(several-rounds)".into());
+    }
+    if avail.iter().filter(|av| queue_shape(av).1 > DRAIN).count() >= 2 {
+        tags.push("session:2+queues>10(interleaved-rounds)".into());
+    }
+    if raw.recv.iter().flatten().any(|m| m.len() == 1 && m[0].1.len() >= 2) {
+        tags.push("session:chunk-split-by-dedup".into());
+    }
+    let shared_part = part_want.keys().any(|k| avail.iter().filter(|av| av.get(&k.0).map(|ns| ns.iter().any(|n| matches!(n, N::Part(v, _) if *v == k.1))).unwrap_or(false)).count() >= 2);
+    if shared_part {
+        tags.push("session:partial-available-from-2+servers".into());
+    }
+    fails
+}
+
+fn exec_session(toks: &[&str]) -> (String, bool, Vec<String>, Vec<String>, Option<String>) {
+    let Some((us, peers)) = parse_session(toks) else {
+        return ("bad-op".into(), false, vec![], vec![], None);
+    };
+    if !(all_forward(&us) && peers.iter().all(|p| all_forward(&p.1))) {
+        return ("err backward-range".into(), false, vec!["session:backward-range".into()], vec![], None);
+    }
+    let mut tags: Vec<String> = vec![format!("session:peers:{}", peers.len())];
+    for (m, _) in &peers {
+        if *m != Mode::Ok {
+            tags.push(format!("session:peer-{}", mode_name(*m)));
+        }
+    }
+    let mut guard = ctx_cell().lock().unwrap();
+    if guard.is_none() {
+        match init_ctx() {
+            Ok(c) => *guard = Some(c),
+            Err(e) => return (String::new(), false, tags, vec![], Some(format!("setup:{}", e.chars().take(60).collect::<String>()))),
+        }
+    }
+    let ctx = guard.as_ref().unwrap();
+    let mut last_why = String::new();
+    for _attempt in 0..3 {
+        let Some(our) = build_ordered(&us) else {
+            return (String::new(), false, tags, vec![], Some("our-partial-map-order".into()));
+        };
+        // the reference: the real compute_available_needs on the same objects, as sets per peer
+        let avail: Vec<BTreeMap<u64, Vec<N>>> =
+            peers.iter().map(|(m, p)| if *m == Mode::Ok { canon(our.compute_available_needs(&build(p))) } else { BTreeMap::new() }).collect();
+        let raw = run_once(ctx, our, &peers);
+        if let Some(why) = undecidable(&raw, &peers) {
+            last_why = why;
+            continue;
+        }
+        let any_live = peers.iter().any(|p| p.0 == Mode::Ok);
+        let mut fails: Vec<String> = raw.anomalies.clone();
+        if raw.result_ok != any_live {
+            fails.push(format!("parallel_sync returned {} with {} peers completing the handshake", if raw.result_ok { "Ok" } else { "Err" }, if any_live { "some" } else { "no" }));
+        }
+        let sent = global_order(&raw, &peers, &mut fails);
+        let shapes: Vec<(usize, usize)> = avail.iter().map(queue_shape).collect();
+        let form = form_of(&shapes);
+        tags.push(format!("session:form:{}", match form { Form::Seq => "seq", Form::Act => "act", Form::Set => "set" }));
+        let small_ok = small(&us) && peers.iter().all(|p| small(&p.1));
+        if small_ok {
+            fails.extend(session_oracle(&peers, &avail, &raw, &sent, &mut tags));
+        } else {
+            tags.push("session:too-large(oracle-skipped)".into());
+        }
+        if wf(&us) && peers.iter().all(|p| wf(&p.1)) {
+            tags.push("session:well-formed".into());
+        } else {
+            tags.push("session:not-well-formed".into());
+        }
+        let out = if !any_live { "err handshake".to_string() } else { show_session(form, &peers, &sent) };
+        tags.sort();
+        tags.dedup();
+        return (out, !sent.is_empty(), tags, fails, None);
+    }
+    (String::new(), false, tags, vec![], Some(format!("session:{}", last_why.chars().take(80).collect::<String>())))
+}
+
+// ---------------------------------------------------------------- session generators
+
+fn seqs_for(rng: &mut Rng) -> Ranges {
+    let mut s = gen_sorted_ranges(rng, 0, 24, 4, 4);
+    if s.is_empty() {
+        s.push((rng.range(0, 3), rng.range(3, 9)));
+    }
+    s
+}
+
+/// one foreign actor's entry in a state: head, need ranges (each up to `max_len` long), partial versions out of
+/// `pool` (and maybe one more), never overlapping the need
+fn gen_actor_side(rng: &mut Rng, st: &mut St, a: u64, head: u64, max_need: u64, max_len: u64, pool: &[u64], p_num: u64, p_den: u64) {
+    st.heads.insert(a, head);
+    let need = gen_sorted_ranges(rng, 1, head, max_need, max_len);
+    let mut pm: BTreeMap<u64, Ranges> = BTreeMap::new();
+    let mut cands: Vec<u64> = pool.to_vec();
+    if head >= 1 && rng.chance(1, 2) {
+        cands.push(rng.range(1, head));
+    }
+    for v in cands {
+        if pm.len() >= 5 || !rng.chance(p_num, p_den) {
+            continue;
+        }
+        if v < 1 || v > head || need.iter().any(|r| r.0 <= v && v <= r.1) {
+            continue;
+        }
+        pm.insert(v, seqs_for(rng));
+    }
+    if !need.is_empty() {
+        st.need.insert(a, need);
+    }
+    if !pm.is_empty() {
+        st.partial.insert(a, pm);
+    }
+}
+
+fn gen_session(rng: &mut Rng) -> String {
+    let mut us = St { actor: 1, ..Default::default() };
+    let n_srv = match rng.below(20) {
+        0..=1 => 1,
+        2..=8 => 2,
+        9..=15 => 3,
+        _ => 4,
+    } as usize;
+    let mut srv_ids: Vec<u64> = vec![5, 6, 7, 8, 9];
+    rng.shuffle(&mut srv_ids);
+    let mut peers: Vec<(Mode, St)> = srv_ids.iter().take(n_srv).map(|id| (Mode::Ok, St { actor: *id, ..Default::default() })).collect();
+    // kind of session: 0 = one foreign actor, long ranges (form seq); 1 = several actors, short queues
+    // (form act, mostly); 2 = several actors, long ranges (form set)
+    let kind = match rng.below(10) {
+        0..=6 => 0,
+        7..=8 => 1,
+        _ => 2,
+    };
+    let actors: Vec<u64> = match kind {
+        0 => vec![2],
+        _ => {
+            let mut ids = vec![2, 3, 4];
+            rng.shuffle(&mut ids);
+            ids.truncate(rng.range(2, 3) as usize);
+            ids.sort();
+            ids
+        }
+    };
+    if rng.chance(1, 3) {
+        us.heads.insert(1, rng.range(0, 9)); // our own versions
+    }
+    for a in &actors {
+        let (hmax, max_len) = if kind == 1 { (9, 3) } else { (150, 45) };
+        let base = rng.range(0, hmax);
+        let known_us = !rng.chance(1, 6);
+        // versions that tend to be partial on several sides
+        let pool: Vec<u64> = (0..rng.range(0, 4)).map(|_| rng.range(1, base.max(1))).collect();
+        if known_us {
+            gen_actor_side(rng, &mut us, *a, base, if kind == 1 { 2 } else { 4 }, max_len, &pool, 4, 5);
+        }
+        for (_, p) in peers.iter_mut() {
+            if kind != 0 && rng.chance(1, 4) {
+                continue; // this peer does not know the actor
+            }
+            if rng.chance(1, 3) {
+                p.heads.insert(1, rng.range(1, 12)); // the peer lists our own actor
+            }
+            let head = match rng.below(12) {
+                0 => 0,
+                1..=2 => base,
+                3..=7 => base + rng.range(1, if kind == 1 { 6 } else { 170 }),
+                8..=9 => base.saturating_sub(rng.range(0, if kind == 1 { 4 } else { 30 })),
+                _ => rng.range(0, if kind == 1 { 12 } else { 320 }),
+            };
+            gen_actor_side(rng, p, *a, head, if kind == 1 { 2 } else { 3 }, max_len, &pool, 1, 3);
+        }
+    }
+    // now and then a peer whose handshake fails at once (the others must cover what THEY can serve)
+    if rng.chance(1, 7) {
+        let i = rng.below(n_srv as u64) as usize;
+        peers[i].0 = if rng.chance(1, 2) { Mode::Close } else { Mode::Reject };
+    }
+    enc_session(&us, &peers)
+}
+
+const ENUM_OURS: usize = 4;
+const ENUM_PEER: usize = 7;
+const ENUM_THIRD: usize = 3;
+
+fn enum_our(i: usize) -> St {
+    let mut us = St { actor: 1, ..Default::default() };
+    match i {
+        0 => {}
+        1 => {
+            us.heads.insert(2, 3);
+        }
+        2 => {
+            us.heads.insert(2, 30);
+            us.need.insert(2, vec![(4, 27)]);
+        }
+        _ => {
+            us.heads.insert(2, 8);
+            us.need.insert(2, vec![(2, 3)]);
+            us.partial.insert(2, BTreeMap::from([(5, vec![(0, 1), (3, 3), (6, 6)]), (7, vec![(2, 4)])]));
+        }
+    }
+    us
+}
+
+fn enum_peer(id: u64, i: usize) -> St {
+    let mut p = St { actor: id, ..Default::default() };
+    match i {
+        0 => {
+            p.heads.insert(2, 0);
+        }
+        1 => {
+            p.heads.insert(2, 6);
+        }
+        2 => {
+            p.heads.insert(2, 7);
+            p.partial.insert(2, BTreeMap::from([(5, vec![(1, 4)])]));
+        }
+        3 => {
+            p.heads.insert(2, 35);
+        }
+        4 => {
+            p.heads.insert(2, 35);
+            p.need.insert(2, vec![(10, 20)]);
+            p.partial.insert(2, BTreeMap::from([(7, vec![(3, 3)])]));
+        }
+        5 => {
+            p.heads.insert(2, 130);
+        }
+        _ => {
+            p.heads.insert(2, 131);
+            p.need.insert(2, vec![(50, 60)]);
+            p.partial.insert(2, BTreeMap::from([(5, vec![(0, 0)])]));
+        }
+    }
+    p
+}
+
+/// exhaustive small scope for the session: one foreign actor; 4 shapes of our state × 7 × 7 shapes of two
+/// peers (head 0 / short / long queues of 1, 4 and 13-14 blocks; gaps; partials) × {no third peer, a third peer
+/// with a long queue, a third peer whose handshake fails}
+fn enum_session(i: usize) -> Option<String> {
+    let total = ENUM_OURS * ENUM_PEER * ENUM_PEER * ENUM_THIRD;
+    if i >= total {
+        return None;
+    }
+    let (o, r) = (i % ENUM_OURS, i / ENUM_OURS);
+    let (a, r) = (r % ENUM_PEER, r / ENUM_PEER);
+    let (b, t) = (r % ENUM_PEER, r / ENUM_PEER);
+    let mut peers = vec![(Mode::Ok, enum_peer(9, a)), (Mode::Ok, enum_peer(8, b))];
+    match t {
+        1 => peers.push((Mode::Ok, enum_peer(7, 5))),
+        2 => peers.insert(1, (Mode::Close, enum_peer(7, 5))),
+        _ => {}
+    }
+    Some(enc_session(&enum_our(o), &peers))
+}
+
 impl Prop for C04 {
     fn id(&self) -> &'static str {
         "C04"
     }
     fn rule(&self) -> &'static str {
-        "one case = one pair (our sync state, peer's advertised state) given to the real compute_available_needs; \
-         non-trivial iff at least one need was produced; distinct by hash of the op line"
+        "one case = one pair (our sync state, peer's advertised state) given to the real compute_available_needs \
+         (non-trivial iff at least one need was produced), or one sync session = our state + 1..4 fake peers' \
+         advertised states given to the real parallel_sync (non-trivial iff at least one Request reached a \
+         peer); distinct by hash of the op line"
     }
     fn default_cases(&self, tier: Tier) -> usize {
         match tier {
@@ -551,8 +1643,13 @@ impl Prop for C04 {
         // exhaustive small scope: one foreign actor (2), peer head h <= H with every version held / needed / partial,
         // our side unknown or head h' <= H with every version held / needed / partial.  Our own actor (1) is always
         // among the peer's heads.
+        // After those: the enumerated sessions (`enum_session`).
         let hmax: u64 = if tier == Tier::Thorough { 5 } else { 4 };
         let p: u64 = (0..=hmax).map(pow3).sum();
+        let n_can = (p * (p + 1)) as usize;
+        if index >= n_can {
+            return enum_session(index - n_can).map(|s| vec![s]);
+        }
         let idx = index as u64;
         let (pi, oi) = (idx / (p + 1), idx % (p + 1));
         let peer_status = decode_status(pi, hmax)?;
@@ -569,7 +1666,10 @@ impl Prop for C04 {
         }
         Some(vec![format!("can {} {}", enc_state(&us), enc_state(&peer))])
     }
-    fn gen_case(&self, rng: &mut Rng, _tier: Tier, _index: usize) -> Vec<String> {
+    fn gen_case(&self, rng: &mut Rng, _tier: Tier, index: usize) -> Vec<String> {
+        if index % 8 == 7 {
+            return vec![gen_session(rng)];
+        }
         let our_id = rng.range(1, 4);
         let mut peer_id = rng.range(1, 9);
         if peer_id == our_id {
@@ -635,9 +1735,22 @@ impl Prop for C04 {
                     r.tags.extend(tags);
                     r.oracle_failures.extend(fails);
                 }
+                Some("session") => {
+                    let (out, nt, tags, fails, inconclusive) = exec_session(&toks);
+                    if inconclusive.is_some() {
+                        r.inconclusive = inconclusive;
+                    }
+                    r.outputs.push(out);
+                    r.nontrivial |= nt;
+                    r.tags.extend(tags);
+                    r.oracle_failures.extend(fails);
+                }
                 _ => r.outputs.push("bad-op".into()),
             }
         }
         r
+    }
+    fn end(&self) {
+        drop_ctx();
     }
 }
